@@ -339,7 +339,10 @@ class CompositeType(SerializableType):
                 return c.value
 
         if name.native_value == "_extent_":  # Experimental non-standard extension
-            return _expression.Rational(self.extent)
+            try:
+                return _expression.Rational(self.extent)
+            except TypeError:  # Not serializable (a service type): the attribute is not defined.
+                pass
 
         return super()._attribute(name)  # Hand over up the inheritance chain, this is important
 
@@ -720,6 +723,11 @@ class ServiceType(CompositeType):
     def response_type(self) -> CompositeType:
         assert self._response_type.has_parent_service
         return self._response_type
+
+    def _check_aggregation(self, aggregate: "SerializableType") -> typing.Optional[AggregationFailure]:
+        return AggregationFailure(
+            self, aggregate, "Service types are not serializable and cannot be used as field or element types"
+        )
 
     def iterate_fields_with_offsets(
         self, base_offset: BitLengthSet = BitLengthSet(0)
